@@ -701,7 +701,7 @@ func main() {
 		"explored phase = partial-signature collection after the fixed real prefix (StartNewDuty, real pre-consensus quorum where the role has one, consensus decided through real proposal/prepare/commit messages or a real decided message); consensus-less roles (voluntary exit, validator registration): the pre-consensus container",
 		"a runner is operator 1 of the spec testing key set; messages are delivered through ProcessPostConsensus/ProcessPreConsensus routed as validator.ProcessMessage routes them; every envelope is signed with the sender's real share key",
 		"at most f members deviate (every subset is reached, see faulty_sets_reached); a deviating member sends at most two messages (any kind, so bad→good, good→bad and duplicates are covered), a non-deviating member sends its correct message once",
-		"reading of \"2f+1 correct partial signatures have arrived\" (weakest): there are 2f+1 distinct members whose LATEST delivered partial-signature message is entirely correct (right slot, right roots, every share signature valid); a member that replaced a good message by a bad one is not counted, a message with one bad entry does not count for any root. The stronger reading (a member counts once it has ever delivered a correct message) is measured, not asserted: states_2f+1_ever_correct_but_not_latest / of_which_not_submitted",
+		"reading of \"2f+1 correct partial signatures have arrived\" (weakest): there are 2f+1 distinct members whose LATEST delivered partial-signature message is entirely correct (right slot, right roots, every share signature valid); a member that replaced a good message by a bad one is not counted, a message with one bad entry does not count for any root. The stronger, literal reading (a member counts once it has ever delivered a correct message, whatever it sent afterwards) is asserted as well (signature liveness-unsubmitted(correct share replaced later)); states_2f+1_ever_correct_but_not_latest / of_which_not_submitted count those states",
 		"oracle uses herumi BLS directly on the arguments of Submit*: signature verifies under the validator public key over ComputeETHSigningRoot(decided object, ComputeETHDomain(domain, genesis fork, genesis validators root)), as the spec testing beacon node defines the domain; memoised BLS (bls_memo) is a pure-function cache",
 		"successor computation: fresh runner + prefix + replay of the state's event path, re-validated against the recorded state key on every build (mismatch = engine error); a runner is reused for the next event of the same state only when the previous event left runner.GetRoot() and the submission log unchanged (rejected message), i.e. when it is still in that very canonical state",
 		"state merging assumes that runner.GetRoot() (JSON of all exported runner state: containers, Finished, decided value, controller and instance) plus the submission log determines future behaviour; unexported runner fields are set by the prefix only",
